@@ -1435,6 +1435,31 @@ class AsType(Elemwise):
             meta = clear_known_categories(meta)
         return meta
 
+    def _filter_passthrough_available(self, parent, dependents):
+        if not super()._filter_passthrough_available(parent, dependents):
+            return False
+        # The predicate must not read a column whose values the cast changes
+        dtypes = self.operand("dtypes")
+        if not isinstance(dtypes, dict):
+            return False
+        predicate_columns = set()
+        stack, seen = [parent.predicate], set()
+        while stack:
+            e = stack.pop()
+            if e._name == self._name or e._name in seen:
+                if e._name == self._name:
+                    return False
+                continue
+            seen.add(e._name)
+            dependencies = e.dependencies()
+            if any(d._name == self._name for d in dependencies):
+                if not isinstance(e, Projection):
+                    return False
+                predicate_columns.update(e.columns)
+                dependencies = [d for d in dependencies if d._name != self._name]
+            stack.extend(dependencies)
+        return not (predicate_columns & set(dtypes))
+
     def _simplify_up(self, parent, dependents):
         if isinstance(parent, Filter) and self._filter_passthrough_available(
             parent, dependents
